@@ -64,6 +64,31 @@ CHECKS = {
              'LM-weighted totals is an uninterpreted positive increasing function; alignment positions are arbitrary strictly '
              'increasing frames (what align_text returns is C05), plus one end-to-end run with the real align_text at F = 2.',
         design='4/C16'),
+    'C19': dict(
+        text='Bounded symbolic execution of the real merge_layouts / get_confidences on real PageLayout, RegionLayout and TextLine '
+             'objects with the per-character confidences of every (engine, line) symbolic reals in [0,1] (or the failing-'
+             'confidence fallback), so that every ordering and tie pattern of the mean confidences is inside the query.  '
+             'Per path z3 decides that the merged line carries transcription, logits and character table of one and the same '
+             'engine, that this engine is the first one attaining the maximal positive mean and that the recorded confidence '
+             'is that maximum; that nothing is recorded when no mean is positive; ids, geometry and order are unchanged; '
+             'self-merge is the identity; mismatching ids are refused.  Bound: <= 3 engines x <= 2 lines (quick), 4 engines x 1 '
+             'line, 3 x 2, 2 x 3 (thorough).',
+        note='Trusted: z3 (linear real arithmetic), the symnp facade (witness replay on the real module).  get_line_confidence '
+             'is a stub returning arbitrary values in [0,1] (what it computes is C16).',
+        design='4/C19'),
+    'C08': dict(
+        text='One inductive step from an arbitrary pre-state: the real PageDecoder.process_page / decode_line run on a page '
+             'after last_h, last_line and the counters have been overwritten with arbitrary symbolic values (None / any LM '
+             'state / any string, emptiness symbolic), and on a fresh decoder; the beam decoder, the LM and the confident-line '
+             'test are uninterpreted functions, transcriptions are terms of an uninterpreted sort, and z3 (EUF) decides on every '
+             'path (per-line confident / missing-logits outcomes symbolic, carry_h_over and threshold on/off) that both runs '
+             'give the same term for every line.  Since every reachable state is an instance of "arbitrary", this covers '
+             'histories of any length, order and repetition.  A static pass lists every stage class that writes self.* during '
+             'process_page (only PageDecoder may), and LMWrapper.__init__ is executed to discharge the determinism assumption '
+             '(model put into eval mode).  Bound: pages of <= 3 (quick) / <= 4 (thorough) lines.',
+        note='Trusted: z3 EUF; decoder/LM determinism (C02/C03, torch in eval mode); a worker process is modelled as an object with '
+             'some history; GPU nondeterminism and random numbers in layout helpers are outside.',
+        design='4/C08'),
 }
 
 NOT_APPLICABLE = {
